@@ -155,6 +155,62 @@ def part_match(job):
     return p
 
 
+def part_samecb(job):
+    """Two distinct registrations of the SAME callable; one is removed: deliveries must follow the other only."""
+    from cflib.crazyflie import _IncomingPacketHandler
+    lo, hi = job
+    p = Partial()
+    alphabet = [(po, pm, ch, cm) for po in (5, 0x0F, 0xFF) for pm in (0xFF, 0x0F, 0x00) for ch in (0, 1)
+                for cm in (0xFF, 0x01, 0x00)]
+    pairs = [(a, b) for a in alphabet for b in alphabet if a != b]
+    headers = [(po << 4) | ch for po in (0, 5, 15) for ch in range(4)]
+    for (r1, r2) in pairs[lo:hi]:
+        for which in ('remove_first', 'remove_second', 'remove_none'):
+            log = []
+            cf = _Cf(_Link([_mk_packet(h, bytes([i])) for i, h in enumerate(headers)]))
+            hd = _IncomingPacketHandler(cf)
+            cb = lambda pk: log.append(pk.data[0])  # noqa
+            hd.add_header_callback(cb, r1[0], r1[2], r1[1], r1[3])
+            hd.add_header_callback(cb, r2[0], r2[2], r2[1], r2[3])
+            gone = r1 if which == 'remove_first' else r2 if which == 'remove_second' else None
+            if gone is not None:
+                hd.remove_header_callback(cb, gone[0], gone[2], gone[1], gone[3])
+            err = _run_dispatcher(hd)
+            left = [r for r in (r1, r2) if r is not gone]
+            exp = [i for i, h in enumerate(headers) for r in left if _ref_match(r, h)]
+            p.case(key=('samecb', r1, r2, which), outcome=(which, len(exp)),
+                   sample={'part': 'same callable twice', 'registrations': [r1, r2], 'op': which, 'deliveries': len(log)}
+                   if (r1, r2) == (alphabet[0], alphabet[2]) else None)
+            p.states += 1
+            p.transitions += len(log)
+            if err is not None or log != exp:
+                diff = [f for f, a, b in zip(('port', 'port_mask', 'channel', 'channel_mask'), r1, r2) if a != b]
+                p.violation('samecb:%s:differ_in_%s' % (which, '+'.join(diff)),
+                            'one callable registered as %r and %r, %s: delivered packets %r, expected %r (err=%r)' % (
+                                r1, r2, which, log, exp, err), {'part': 'samecb', 'r1': list(r1), 'r2': list(r2), 'which': which})
+    # the two public forms of the same thing
+    for port in (0, 5, 15):
+        for which in ('remove_port_form', 'remove_header_form'):
+            log = []
+            cf = _Cf(_Link([_mk_packet(h, bytes([i])) for i, h in enumerate(headers)]))
+            hd = _IncomingPacketHandler(cf)
+            cb = lambda pk: log.append(pk.data[0])  # noqa
+            hd.add_port_callback(port, cb)
+            hd.add_header_callback(cb, port, 0)
+            if which == 'remove_port_form':
+                hd.remove_port_callback(port, cb)
+                exp = [i for i, h in enumerate(headers) if _ref_match((port, 0xFF, 0, 0xFF), h)]
+            else:
+                hd.remove_header_callback(cb, port, 0)
+                exp = [i for i, h in enumerate(headers) if _ref_match((port, 0xFF, 0, 0x00), h)]
+            err = _run_dispatcher(hd)
+            p.case(key=('samecb-forms', port, which), outcome=(which, len(exp)))
+            if err is not None or log != exp:
+                p.violation('samecb:%s' % which, 'add_port_callback(%d, f) + add_header_callback(f, %d, 0), %s: delivered %r, '
+                            'expected %r' % (port, port, which, log, exp), {'part': 'samecb-forms', 'port': port, 'which': which})
+    return p
+
+
 # ---------------------------------------------------------------------------------------------
 # Part B: table mutation during dispatch
 # ---------------------------------------------------------------------------------------------
@@ -448,7 +504,8 @@ def _dispatch(job):
 
 
 def run(ck):
-    ck.rule = ('A: 256 headers x 1088 registrations (17 ports x 4 port masks x 4 channels x 4 channel masks), in one '
+    ck.rule = ('A2: every ordered pair of distinct registrations of one callable over a 54-registration alphabet x {remove first, '
+               'remove second, remove none}. A: 256 headers x 1088 registrations (17 ports x 4 port masks x 4 channels x 4 channel masks), in one '
                'table and one at a time, plus add/remove_port_callback for 16 ports. B: every registration list of '
                'length 1..L over 3 patterns, every per-callback action from {nop, raise, rm_self, rm_<other>, add_new, '
                'add_self_alt}, x 4 packet sequences; non-trivial = at least one non-nop action. C: cf.link cleared at '
@@ -458,6 +515,8 @@ def run(ck):
               'whether one removed before its turn still sees p')
     L = 3 if ck.quick else 4
     jobs = [('match', ('all', tuple(range(256)))), ('match', ('single', None)), ('race', None)]
+    npairs = 54 * 53
+    jobs += [('samecb', (lo, min(lo + 360, npairs))) for lo in range(0, npairs, 360)]
     for n in range(1, L + 1):
         for fp in sorted(PATS):
             acts0 = list(ACTIONS_BASE) + ['rm_r%d' % j for j in range(1, n)]
